@@ -149,7 +149,10 @@ class C09(Prop):
             pass
         lam, ys, ss = dualcert.best_cert(2 * d * x0, x0, sys["lb"], sys["ub"], G, h, [(M, e, float(rho))])
         obj = float(d @ (x * x))
-        case["_p"] = dict(x0=x0, ref=ref, sys=sys, M=M, e=e, rho=rho, best=float(best), E=E, d=d, E_in=E_in, cert=(lam, ys, ss), obj=obj, G=G, h=h, exact=exact, Apn=Apn, bpn=bpn)
+        # optimality tolerance: 1e-4 relative, plus the sensitivity of the optimum to the fit-quality budget (its multiplier s) times the
+        # slack 1e-4 that the verdict itself grants on that constraint (thin feasible slivers around far targets have multipliers of several hundred)
+        tol_obj = 1e-4 * max(1.0, obj) + 2e-4 * (float(ss[0]) if ss else 0.0)
+        case["_p"] = dict(tol_obj=tol_obj, x0=x0, ref=ref, sys=sys, M=M, e=e, rho=rho, best=float(best), E=E, d=d, E_in=E_in, cert=(lam, ys, ss), obj=obj, G=G, h=h, exact=exact, Apn=Apn, bpn=bpn)
         return case["_p"]
 
     def emit(self, case, out):
@@ -161,7 +164,7 @@ class C09(Prop):
         return "(Fits.GV (Fits.Build_vcase %s %s %s %s %s %s %s %s %s %s %s %s %s %s %s %s %s %s))" % (
             kmat_lit(sys["K"], m), qm(sys["A"].tolist()), cnat(sys["n"]), qv(sys["lb"].tolist()), qv(sys["ub"].tolist()),
             qv(base_vec(sys["baseline"], m).tolist()), qv(case["w"]), qv(case["b"]), Eps, q(p["rho"]), l1,
-            qv(out["X"]), qv(p["x0"].tolist()), qv(out["Bpred"]), qv(out["Bvar"]), dualcert.cert_lit(*p["cert"]), q(1e-4 * max(1.0, p["obj"])), q(1e-4))
+            qv(out["X"]), qv(p["x0"].tolist()), qv(out["Bpred"]), qv(out["Bvar"]), dualcert.cert_lit(*p["cert"]), q(p["tol_obj"]), q(1e-4))
 
     def spec_violation(self, case, out):
         if "error" in out:
@@ -180,7 +183,7 @@ class C09(Prop):
             return {"what": "reported capture variance is not the variance model (%s) applied to the returned intensities" % case["ek"], "class": "bvar:" + case["ek"]}
         if np.max(np.abs(p["Apn"] @ x + p["bpn"] - np.asarray(out["Bpred"]))) > 1e-8:
             return {"what": "B_pred is not the model capture of the returned intensities", "class": "prediction"}
-        if p["ref"] is not None and p["obj"] > p["ref"] * (1 + 1e-4) + 1e-6:
+        if p["ref"] is not None and p["obj"] > p["ref"] + p["tol_obj"] + 1e-6:
             return {"what": "summed capture variance %.9g but %s (in bounds, within the error budget) achieves %.9g" % (p["obj"], p["x0"].round(6).tolist(), p["ref"]),
                     "class": "variance-not-minimal:" + case["ek"]}
         xo = np.asarray(out["X_ordinary"])
